@@ -44,6 +44,9 @@ KNOWN_WITNESSES = {
     "C07-list-shapes": ['let r = [1] + ["a"];', 'let r = filter(func(x) => false, [1]) + filter(func(x) => false, ["a"]);'],
     "C07-and-or-rhs": ["let x = true && 5;", 'let x = false || "s";', "let n = false && (not 5);"],
     "C07-select-merge": ['let r = (select ("y", 0) => {x = {a = 1}, y = {a = 1, b = "s"}}).b;'],
+    "C07-inferred-tuple-closed": ['let f = func(t) => t.a + t.b; let r = f({a=1,b=2});'],
+    "C07-reduce-tuple-growth": ['let r = reduce(func(acc,x) => acc{b=x}, {a=0}, [1,2]).b;'],
+    "C07-module-default-shape": ['let m = module {t = {a=1}} => { let r = mod.t; }; let i = m{t = {b=3}};'],
     "C07-dead-branch-narrowing": ['let f = func(x) => select (x is "int", "s") => {"true" = x + 1}; let r = f("a");'],
 }
 
